@@ -34,7 +34,7 @@ ASSUMPTIONS = ["Stop(Async)Iteration / IndexError are never injected (their mean
 EXHAUSTIVE = {"quick": False, "thorough": False}
 
 N_SPECS = {"quick": 40000, "thorough": 1500000}
-SRC_FL = ["async_class", "async_gen", "sync_iter", "sync_gen", "getitem_seq", "async_class_bare", "async_iterable", "sync_iterable", "async_class_plainnext"]
+SRC_FL = ["async_class", "async_gen", "sync_iter", "sync_gen", "getitem_seq", "async_class_bare", "async_iterable", "sync_iterable", "async_class_plainnext", "sync_sequence"]
 FN_FL = ["def", "async_def", "callobj", "partial", "awaitobj", "classobj"]
 EXC = ["Injected", "TypeError", "ValueError", "LookupError", "InjectedBase", "RuntimeError", "AttributeError", "KeyError",
        "IndexError", "AssertionError", "Exception", "BaseException", "RuntimeError_caused_by_StopIteration",
